@@ -809,8 +809,15 @@ Proof.
         + injection E3 as <- <- <-. split; [rewrite Hs2, Hs1; eexists; eexists; eexists; reflexivity|exact Htx1]. }
     destruct d.
     + injection H as <- <-. apply pe_other. exact H3.
-    + destruct H3 as [[tk3 [fa3 [fcd3 Hs3]]] Htx3]. apply trans_spec in H. destruct H as [s' [Ht [-> ->]]].
-      rewrite Hs3 in Ht. cbn in Ht. injection Ht as <-. split; [unfold pass_entry; cbn; split; [reflexivity|exact Htx3]|cbn; discriminate].
+    + destruct H3 as [[tk3 [fa3 [fcd3 Hs3]]] Htx3].
+      match type of H with context [trans A ?a ?b ?c] => destruct (trans A a b c) as [[f4 w4]| |] eqn:Et end; cbn [bind] in H; try discriminate H.
+      apply trans_spec in Et. destruct Et as [s' [Ht [-> ->]]]. rewrite Hs3 in Ht. cbn in Ht. injection Ht as <-.
+      (* F20 repair: do_pass_token in the same poll *)
+      apply (do_pass_token_spec _ now _ f' w' true AttFirst) in H; [|reflexivity|cbn; exact Htx3].
+      destruct H as [[_ [_ [_ [_ [Hs _]]]]] Htx _ _ _|addr Hdg Hs _ _ _ _ _ _ _|[r' [_ [_ [Htx [Hs _]]]]]].
+      * split; [unfold pass_entry; rewrite Hs; cbn; split; [reflexivity|exact Htx]|rewrite Hs; cbn; discriminate].
+      * apply pe_other. rewrite Hs. reflexivity.
+      * split; [unfold pass_entry|]; rewrite Hs; destruct (r_ns r' =? _); try exact I; try (cbn; discriminate). split; [reflexivity|rewrite Htx; discriminate].
 Qed.
 
 Lemma do_use_token_entry f now (w : W) f' w' :
